@@ -291,6 +291,57 @@ theorem initBiogeme_engine (E : Env σ α) (seed : Nat) (d : Decl) (R : Nat) (w 
         subst ho
         exact ⟨rfl, t1, s1, t2, s2, rfl, g2, rfl⟩
 
+/-! ### refused generations leave the table and the objects as they were -/
+
+theorem prepareDraws_refused (E : Env σ α) (d : Decl) (R : Nat) (w : World σ α)
+    (h : (prepareDraws E d R w).2.isSome = true) :
+    (prepareDraws E d R w).1.theDraws = w.theDraws ∧ (prepareDraws E d R w).1.objs = w.objs := by
+  unfold prepareDraws at h ⊢
+  split
+  · exact ⟨rfl, rfl⟩
+  · rename_i hd
+    simp only [hd, if_false] at h
+    rcases g : generateDrawsS E.dflt E.native E.user (declType d) E.gen (callNames d) E.N R w.rng with ⟨res, s⟩
+    rw [g] at h
+    cases res with
+    | error e => exact ⟨rfl, rfl⟩
+    | ok t => simp at h
+
+theorem step_refused (E : Env σ α) (w : World σ α) (op : Op) (h : refusedIn E w op = true) :
+    (step E w op).1.theDraws = w.theDraws ∧ (step E w op).1.objs = w.objs ∧ (step E w op).2.isSome = true := by
+  cases op with
+  | evalExpr d R =>
+    simp only [refusedIn] at h
+    exact ⟨(prepareDraws_refused E d R w h).1, (prepareDraws_refused E d R w h).2, h⟩
+  | createFunction d R =>
+    simp only [refusedIn] at h
+    exact ⟨(prepareDraws_refused E d R w h).1, (prepareDraws_refused E d R w h).2, h⟩
+  | newBiogeme seed d R =>
+    simp only [refusedIn] at h
+    have hp := prepareDraws_refused E d R { w with rng := seedPolicy E.fresh seed w.rng } h
+    simp only [step, initBiogeme]
+    rcases h1 : prepareDraws E d R { w with rng := seedPolicy E.fresh seed w.rng } with ⟨w1, e1⟩
+    rw [h1] at h hp
+    cases e1 with
+    | none => simp at h
+    | some e => exact ⟨hp.1, hp.2, rfl⟩
+  | setNumberOfDraws i R => simp [refusedIn] at h
+  | evalBiogeme i => simp [refusedIn] at h
+  | consume k => simp [refusedIn] at h
+  | callFunction => simp [refusedIn] at h
+
+theorem run_calm_theDraws (E : Env σ α) (ops : List Op) (w : World σ α) (hc : calmRun E w ops = true) :
+    (run E w ops).theDraws = w.theDraws := by
+  induction ops generalizing w with
+  | nil => rfl
+  | cons op rest ih =>
+    simp only [calmRun, Bool.and_eq_true, Bool.or_eq_true] at hc
+    simp only [run]
+    rw [ih _ hc.2]
+    rcases hc.1 with hq | hr
+    · exact step_quiet_theDraws E w op hq
+    · exact (step_refused E w op hr).1
+
 /-! ### two concrete sorted lists used by the examples of Props/C10.lean -/
 
 theorem sortNames_zeta_alpha : sortNames ["zeta", "alpha"] = ["alpha", "zeta"] := by
